@@ -26,7 +26,10 @@ EVID = os.path.join(VERIF, "evidence") if not ALT else os.path.join(tempfile.get
 REPLAYS = os.path.join(VERIF, "replays") if not ALT else os.path.join(tempfile.gettempdir(), "vreplays." + _tag)
 NPROC = max(2, min(16, os.cpu_count() or 4))
 
-GOENV = dict(os.environ, GOFLAGS="-mod=mod", GOPROXY="off", GOSUMDB="off", GOTOOLCHAIN="local")
+# the harness workers open and close thousands of databases, each with Badger's large arenas: collect early and cap the heap,
+# or sixteen workers of a thorough run hold 8 GB of garbage each
+GOENV = dict(os.environ, GOFLAGS="-mod=mod", GOPROXY="off", GOSUMDB="off", GOTOOLCHAIN="local",
+             GOGC=os.environ.get("GOGC", "25"), GOMEMLIMIT=os.environ.get("GOMEMLIMIT", "3GiB"))
 
 
 class Inconclusive(Exception):
